@@ -366,9 +366,8 @@ package queryparser
 //@   requires query != nil && ptOK(query.Expr)
 //@   requires enough_values: forall x *updogv1.Query_Expression_Equal :: leafOf(x, query.Expr) ==> x.Placeholder <= len(values)
 //@   ensures [C11] q != nil && fresh(q) && ptOK(q.Expr)
-//@   ensures [C11] every_leaf_is_the_copy_of_a_leaf_with_its_argument_bound: forall x *updogv1.Query_Expression_Equal :: leafOf(x, q.Expr) ==>
-//@        leafOf(x.src, query.Expr) && x.Column == x.src.Column
-//@        && (x.src.Placeholder > 0 ==> x.Placeholder == 0 && x.Value == values[x.src.Placeholder - 1])
-//@        && (x.src.Placeholder <= 0 ==> x.Placeholder == x.src.Placeholder && x.Value == x.src.Value)
+//@   ensures [C11] every_leaf_is_the_copy_of_a_leaf: forall x *updogv1.Query_Expression_Equal :: leafOf(x, q.Expr) ==> leafOf(x.src, query.Expr) && x.Column == x.src.Column
+//@   ensures [C11] placeholder_leaves_get_their_argument: forall x *updogv1.Query_Expression_Equal :: leafOf(x, q.Expr) && x.src.Placeholder > 0 ==> x.Placeholder == 0 && x.Value == values[x.src.Placeholder - 1]
+//@   ensures [C11] literal_leaves_are_kept: forall x *updogv1.Query_Expression_Equal :: leafOf(x, q.Expr) && x.src.Placeholder <= 0 ==> x.Placeholder == x.src.Placeholder && x.Value == x.src.Value
 //@   ensures [C11] group_by_is_copied: len(q.GroupBy) == len(query.GroupBy) && (forall j idx(q.GroupBy) :: q.GroupBy[j] == query.GroupBy[j])
 //@        && (arr(q.GroupBy) == nil || fresh(arr(q.GroupBy)))
